@@ -92,16 +92,19 @@ class Config(Bunch, metaclass=NamespaceableMeta):
                 if key[0] != '!' and default_inline_tag:
                     yaml = default_inline_tag + ' { '
                 elif key[0] == '!' and len(key.split(None, 1)) == 2:
-                    # a tag typed in front of the name is not left on the key inside the mapping the option is turned into, where it
-                    # would be ignored: !new / !notnew take the place of the default tag in front of that mapping, any other tag
-                    # (!force, !del, !merge...) is meant for the value - the override stays a !notnew one and touches nothing else
+                    # a tag typed in front of the name takes the place of the default one ("!new fooo=1"). It is meant for the value -
+                    # not for the key inside the mapping the option is turned into, where it would be ignored, nor for that mapping
+                    # as a whole, where a !del would remove everything else; only if the value has a tag of its own (a node can
+                    # carry one) does it go in front of the mapping, which holds nothing but this one path, as !new / !notnew do
                     tag, key = key.split(None, 1)
                     if tag in ('!new', '!notnew'):
-                        yaml = tag + ' { '
-                    else:
+                        yaml = tag + ' { ' # (these two are about the paths on the way as well)
+                    elif not value.startswith('!'):
                         value = tag + ' ' + value
-                        if default_inline_tag:
-                            yaml = default_inline_tag + ' { '
+                    elif tag == '!del':
+                        raise ValueError(f'A !del in front of an override whose value has a tag of its own cannot be expressed: {option!r}')
+                    else:
+                        yaml = tag + ' { '
 
                 ind = 0
                 for part in key.split('.'):
